@@ -78,6 +78,10 @@ func applyDiff(a map[string]intoto.HashObj, kind string) {
 		delete(a[first], "sha256")
 	case "add-alg":
 		a[first]["sha512"] = "abcdef"
+	case "respell-path":
+		// the same file under another spelling of its path is another path
+		a["./"+first] = a[first]
+		delete(a, first)
 	}
 }
 
@@ -101,7 +105,7 @@ func runC05(c *core.Ctx) {
 						if links < 2 {
 							continue
 						}
-						for _, dk := range []string{"add-path", "drop-path", "digest", "rename-alg", "add-alg"} {
+						for _, dk := range []string{"add-path", "drop-path", "digest", "rename-alg", "add-alg", "respell-path"} {
 							for _, side := range []string{"materials", "products"} {
 								for ds := 0; ds < steps; ds++ {
 									if c.Quick() && (ds+steps+th+len(dk)+len(side))%3 != 0 {
@@ -161,6 +165,16 @@ func runC05(c *core.Ctx) {
 			if s == 0 && k.Steps > 1 && (ci%3 == 1 && k.BadStep == 0 || k.RuleLess0) {
 				// a first step without any artifact rules (legal): the rules of the following steps still count
 				mr, pr = nil, nil
+			}
+			if ci%3 == 2 && mr != nil {
+				// MATCH rules with a source prefix under which nothing lives: they consume nothing and
+				// must leave the agreed artifact sets (and with them the summary link) alone
+				if s == 0 {
+					mr = append([][]string{{"MATCH", "*", "IN", "vendor", "WITH", "PRODUCTS", "FROM", fmt.Sprintf("step%d", k.Steps-1)}}, mr...)
+				}
+				if s == k.Steps-1 {
+					pr = append([][]string{{"MATCH", "*", "IN", "vendor", "WITH", "MATERIALS", "FROM", "step0"}}, pr...)
+				}
 			}
 			steps = append(steps, gen.Step(name, k.Threshold, gen.KeyIDs(fn...), mr, pr))
 		}
@@ -373,7 +387,7 @@ func init() {
 	core.Register(&core.Property{
 		ID:    "C05",
 		Level: "exploration",
-		Rule: "chains of 1-4 steps (step i consumes the product of step i-1), thresholds 1-3, threshold..3 validly signed authorized links per step; a single difference {added path, dropped path, one digest nibble, renamed algorithm, added algorithm} in the materials or products of one counted link at every step position; all counted links of one step (every position) agreeing on a product that step's rules forbid, with and without a rule-less step in front of it (rejected unless the agreeing step itself has no rules); uncounted links (unsigned / unauthorized / tampered) with arbitrary other artifacts added to otherwise identical directories (metamorphic pairs; the product rules REQUIRE f_i / DISALLOW evil would flip the verdict if they were evaluated on the uncounted link); 2 wrappers x 2 entry points; every case verified 4 times (the reference link is picked from a map); the summary link is compared with (requested name, agreed materials of the first step, agreed products of the last step); ReduceStepsMetadata called directly with the difference at each of 3 positions x 6 repetitions. " +
+		Rule: "chains of 1-4 steps (step i consumes the product of step i-1), thresholds 1-3, threshold..3 validly signed authorized links per step; a single difference {added path, dropped path, one digest nibble, renamed algorithm, added algorithm, the same path spelled ./path} in the materials or products of one counted link at every step position; all counted links of one step (every position) agreeing on a product that step's rules forbid, with and without a rule-less step in front of it (rejected unless the agreeing step itself has no rules); uncounted links (unsigned / unauthorized / tampered) with arbitrary other artifacts added to otherwise identical directories (metamorphic pairs; the product rules REQUIRE f_i / DISALLOW evil would flip the verdict if they were evaluated on the uncounted link); 2 wrappers x 2 entry points; a third of the chains carry MATCH ... IN vendor rules on the first and last step that consume nothing (the agreed sets and the summary must not change); every case verified 4 times (the reference link is picked from a map); the summary link is compared with (requested name, agreed materials of the first step, agreed products of the last step); ReduceStepsMetadata called directly with the difference at each of 3 positions x 6 repetitions. " +
 			"non-trivial = >=2 counted links or an uncounted link with other artifacts; distinct = the case tuple",
 		Assumptions: []string{"every validly signed authorized link counts, also beyond the threshold"},
 		Workers:     func(string) int { return 16 },
